@@ -137,12 +137,15 @@ func (p *Path) hasSecret(v Value) bool {
 // ---------- os file model ----------
 
 type fileState struct {
-	path    string
-	mode    uint64
-	exists  bool
-	writes  []Value // values written
-	leaked  bool    // secret-dependent content was written while group/other bits were set
-	secret  bool
+	path        string
+	mode        uint64
+	exists      bool
+	writes      []Value // values written
+	leaked      bool    // secret-dependent content was written while group/other bits were set
+	secret      bool
+	stale       bool // bytes of an earlier, longer content remain after the current one
+	overwriting bool
+	oldSize     int
 }
 
 func (p *Path) files() map[string]*fileState {
@@ -239,17 +242,8 @@ func init() {
 			f.mode = 0o666 &^ 0o022 // umask 022
 		}
 		f.exists = true
-		f.writes = nil // truncated
+		f.writes, f.stale, f.overwriting = nil, false, false // truncated
 		p.crashPoint("os.Create:" + path)
-		return Tuple{osFile(p, fn, path), Iface{}}
-	})
-	reg("os.OpenFile", func(p *Path, fn *ssa.Function, a []Value) Value {
-		path := strArg(p, a[0])
-		f := p.fileAt(path)
-		if !f.exists {
-			f.mode = uint64(p.concInt(a[2].(*Term))) &^ 0o022
-			f.exists = true
-		}
 		return Tuple{osFile(p, fn, path), Iface{}}
 	})
 	reg("os.Chmod", func(p *Path, fn *ssa.Function, a []Value) Value {
@@ -303,5 +297,151 @@ func init() {
 			}
 		}
 		return BVC(0xffffffff, 32)
+	})
+}
+
+// ---------- more of the os model: existence, stat, non-truncating opens, toml.DecodeFile ----------
+
+func (p *Path) enoent() Value {
+	if v, ok := p.natives["enoent"]; ok {
+		return v.(Value)
+	}
+	e := p.newError(StrC("no such file or directory"), nil)
+	p.natives["enoent"] = e
+	return e
+}
+
+// deepSize is an abstract "encoded length" of a value: the number of scalar leaves. It only serves to decide
+// whether an in-place overwrite (open without O_TRUNC) leaves a stale tail of the previous content.
+func deepSize(v Value, depth int) int {
+	if depth > 40 {
+		return 1
+	}
+	switch x := v.(type) {
+	case Struct:
+		n := 0
+		for _, f := range x {
+			n += deepSize(f, depth+1)
+		}
+		return n
+	case Array:
+		n := 0
+		for _, f := range x {
+			n += deepSize(f, depth+1)
+		}
+		return n
+	case Slice:
+		n := 1
+		for _, f := range x.A {
+			n += deepSize(f, depth+1)
+		}
+		return n
+	case *Value:
+		if x == nil {
+			return 1
+		}
+		return deepSize(*x, depth+1)
+	case Iface:
+		if x.T == nil {
+			return 1
+		}
+		return deepSize(x.V, depth+1)
+	case Str:
+		return 1 + x.Len()
+	}
+	return 1
+}
+
+func (p *Path) fileContentSize(f *fileState) int {
+	n := 0
+	for _, w := range f.writes {
+		if sl, ok := w.(Slice); ok {
+			if bs, ok := tryBytes(sl); ok {
+				if e := p.codecLookup(bs); e != nil {
+					n += deepSize(e.val, 0)
+					continue
+				}
+			}
+		}
+		n += deepSize(w, 0)
+	}
+	return n
+}
+
+func init() {
+	reg("os.Stat", func(p *Path, fn *ssa.Function, a []Value) Value {
+		path := strArg(p, a[0])
+		exists := false
+		if f, ok := p.files()[path]; ok && f.exists {
+			exists = true
+		}
+		for _, o := range p.fileOpens {
+			if o.Path == "dir:"+path || o.Path == path {
+				exists = true
+			}
+		}
+		for k, f := range p.files() {
+			if f.exists && strings.HasPrefix(k, path+"/") {
+				exists = true
+			}
+		}
+		if !exists {
+			return Tuple{Iface{}, p.enoent()}
+		}
+		return Tuple{Iface{T: p.eng.opaqueT, V: &Native{Kind: "opaque", Data: "fileinfo"}}, Iface{}}
+	})
+	reg("os.Lstat", intrinsics["os.Stat"])
+	reg("os.IsNotExist", func(p *Path, fn *ssa.Function, a []Value) Value {
+		return equals(a[0], p.enoent())
+	})
+	// os.OpenFile with explicit flags: O_CREATE 0x40, O_TRUNC 0x200 (linux)
+	reg("os.OpenFile", func(p *Path, fn *ssa.Function, a []Value) Value {
+		path := strArg(p, a[0])
+		flags := p.concInt(a[1].(*Term))
+		f := p.fileAt(path)
+		if !f.exists {
+			if flags&0x40 == 0 {
+				return Tuple{(*Value)(nil), p.enoent()}
+			}
+			f.mode = uint64(p.concInt(a[2].(*Term))) &^ 0o022
+			f.exists = true
+		}
+		if flags&0x200 != 0 {
+			f.writes, f.stale = nil, false
+		} else if flags&3 != 0 && len(f.writes) > 0 {
+			// opened for writing without truncation: the old content stays until overwritten
+			f.oldSize = p.fileContentSize(f)
+			f.writes = nil
+			f.overwriting = true
+		}
+		ptr := new(Value)
+		*ptr = Value(&Native{Kind: "os:file", Data: f})
+		return Tuple{ptr, Iface{}}
+	})
+	reg("github.com/BurntSushi/toml.DecodeFile", func(p *Path, fn *ssa.Function, a []Value) Value {
+		path := strArg(p, a[0])
+		md := zero(fn.Signature.Results().At(0).Type())
+		f, ok := p.files()[path]
+		if !ok || !f.exists {
+			return Tuple{md, p.enoent()}
+		}
+		if f.overwriting && p.fileContentSize(f) < f.oldSize {
+			f.stale = true
+		}
+		if f.stale {
+			return Tuple{md, p.newError(StrC("toml: stale bytes of the previous content follow the document"), nil)}
+		}
+		if len(f.writes) != 1 {
+			return Tuple{md, p.newError(StrC("toml: cannot decode (empty or multi-part file)"), nil)}
+		}
+		bs, ok2 := tryBytes(f.writes[0].(Slice))
+		if !ok2 {
+			return Tuple{md, p.newError(StrC("toml: cannot decode"), nil)}
+		}
+		e := p.codecLookup(bs)
+		if e == nil || !p.decodeInto(e, a[1]) {
+			return Tuple{md, p.newError(StrC("toml: cannot decode"), nil)}
+		}
+		return Tuple{md, Iface{}}
 	})
 }
